@@ -11,6 +11,7 @@ import (
 // TName: the innermost type name of an ast.Type (what (*ast.Type).Name returns).
 func TName(t *ast.Type) string { panic("ghost") }
 
+//@ assume-nonnil-elems *ast.Definition
 //@ assume-nonnil-elems *ast.FieldDefinition
 //@ assume-nonnil-elems *ast.ArgumentDefinition
 //@ assume-nonnil-field ast.FieldDefinition.Type
@@ -72,6 +73,7 @@ func TName(t *ast.Type) string { panic("ghost") }
 //@ ensures[frame] forallT(ty, string, forallT(f, string, (ty != typename || f != fieldname || fieldname == "id") ==> routed(t, ty, f) == old(routed(t, ty, f)) && (routed(t, ty, f) ==> route(t, ty, f) == old(route(t, ty, f)))))
 //@ ensures[flags] forallT(ty, string, has(t, ty) ==> (old(has(t, ty)) && t[ty].IsImplementsNode == old(t[ty].IsImplementsNode)) || (!old(has(t, ty)) && !t[ty].IsImplementsNode))
 //@ ensures[types] forallT(ty, string, old(has(t, ty)) ==> has(t, ty))
+//@ ensures[flags] forallT(ty, string, has(t, ty) && !old(has(t, ty)) ==> ty == typename)
 //@ modifies t[*], entries(map[string]string), fresh
 //@ end
 
@@ -83,6 +85,7 @@ func TName(t *ast.Type) string { panic("ghost") }
 //@ ensures[frame] forallT(ty, string, forallT(f, string, routed(t, ty, f) == old(routed(t, ty, f)) && (routed(t, ty, f) ==> route(t, ty, f) == old(route(t, ty, f)))))
 //@ ensures[flags] forallT(ty, string, ty != typename && has(t, ty) ==> old(has(t, ty)) && t[ty].IsImplementsNode == old(t[ty].IsImplementsNode))
 //@ ensures[types] forallT(ty, string, old(has(t, ty)) ==> has(t, ty))
+//@ ensures[flags] forallT(ty, string, has(t, ty) && !old(has(t, ty)) ==> ty == typename)
 //@ modifies t[*], all(TypeProps.IsImplementsNode), fresh
 //@ end
 
@@ -100,4 +103,79 @@ func TName(t *ast.Type) string { panic("ghost") }
 //@ ensures[ok] ok == has(t, typename)
 //@ ensures[res] ok ==> res == t[typename].IsImplementsNode
 //@ modifies fresh
+//@ end
+
+//@ define declaresAt(schema map[string]*ast.Definition, T string, i int) bool = has(schema, T) && schema[T].Kind == ast.Object && !hasprefix(T, "__") && 0 <= i && i < len(schema[T].Fields) && !hasprefix(schema[T].Fields[i].Name, "__") && !nodeEntry(schema[T].Fields[i]) && schema[T].Fields[i].Name != "id"
+//@ define declaresName(schema map[string]*ast.Definition, T string, n string) bool = exists(i, 0, len(schema[T].Fields), declaresAt(schema, T, i) && schema[T].Fields[i].Name == n)
+//@ define implNode(schema map[string]*ast.Definition, T string) bool = has(schema, T) && schema[T].Kind == ast.Object && !hasprefix(T, "__") && exists(j, 0, len(schema[T].Interfaces), schema[T].Interfaces[j] == "Node")
+
+//@ define objDecl(schema map[string]*ast.Definition, T string) bool = has(schema, T) && schema[T].Kind == ast.Object && !hasprefix(T, "__")
+//@ define sameRoute(t TypeURLMap, T string, n string) bool = routed(t, T, n) == old(routed(t, T, n)) && (routed(t, T, n) ==> route(t, T, n) == old(route(t, T, n)))
+//@ define keptOrNew(t TypeURLMap, T string, n string, url string) bool = (old(routed(t, T, n)) ==> routed(t, T, n)) && (routed(t, T, n) ==> (old(routed(t, T, n)) && route(t, T, n) == old(route(t, T, n))) || route(t, T, n) == url)
+
+//@ func (TypeURLMap).SetFromSchema
+//@ props C04
+//@ requires t != nil && wfTM(t)
+//@ requires forallT(k, string, has(schema, k) ==> schema[k] != nil)
+//@ ensures[wf] wfTM(t)
+//@ ensures[routes] forallT(T, string, forall(i, 0, len(schema[T].Fields), declaresAt(schema, T, i) ==> routed(t, T, schema[T].Fields[i].Name) && route(t, T, schema[T].Fields[i].Name) == url))
+//@ ensures[frame-types] forallT(T, string, !objDecl(schema, T) ==> forallT(n, string, sameRoute(t, T, n)))
+//@ ensures[frame-fields] forallT(T, string, forallT(n, string, keptOrNew(t, T, n, url)))
+//@ ensures[flags] forallT(T, string, has(t, T) ==> t[T].IsImplementsNode == (old(has(t, T) && t[T].IsImplementsNode) || implNode(schema, T)))
+//@ ensures[types] forallT(T, string, old(has(t, T)) ==> has(t, T))
+//@ modifies t[*], entries(map[string]string), all(TypeProps.IsImplementsNode), fresh
+//@ loop 0 invariant[wf] wfTM(t) && t != nil
+//@ loop 0 invariant[routes] forallT(T, string, seen(T) ==> forall(i, 0, len(schema[T].Fields), declaresAt(schema, T, i) ==> routed(t, T, schema[T].Fields[i].Name) && route(t, T, schema[T].Fields[i].Name) == url)) @using routes, current, wf
+//@ loop 0 invariant[frame-types] forallT(T, string, !(seen(T) && objDecl(schema, T)) ==> forallT(n, string, sameRoute(t, T, n))) @using frame-types, wf
+//@ loop 0 invariant[frame-fields] forallT(T, string, forallT(n, string, keptOrNew(t, T, n, url))) @using frame-fields, wf
+//@ loop 0 invariant[flags] forallT(T, string, has(t, T) ==> t[T].IsImplementsNode == (old(has(t, T) && t[T].IsImplementsNode) || (seen(T) && implNode(schema, T)))) @using flags, flag, wf
+//@ loop 0 invariant[types] forallT(T, string, old(has(t, T)) ==> has(t, T))
+//@ loop 1 invariant[wf] wfTM(t) && t != nil && has(schema, k) && v == schema[k] && v.Kind == ast.Object && !hasprefix(k, "__") && iin == implNode(schema, k)
+//@ loop 1 invariant[routes] forallT(T, string, seen(T) && T != k ==> forall(i, 0, len(schema[T].Fields), declaresAt(schema, T, i) ==> routed(t, T, schema[T].Fields[i].Name) && route(t, T, schema[T].Fields[i].Name) == url)) @using routes, frame, wf
+//@ loop 1 invariant[current] forall(i, 0, it, declaresAt(schema, k, i) ==> routed(t, k, schema[k].Fields[i].Name) && route(t, k, schema[k].Fields[i].Name) == url) @using current, set, frame, wf
+//@ loop 1 invariant[frame-types] forallT(T, string, !(seen(T) && objDecl(schema, T)) ==> forallT(n, string, sameRoute(t, T, n))) @using frame-types, frame, wf
+//@ loop 1 invariant[frame-fields] forallT(T, string, forallT(n, string, keptOrNew(t, T, n, url))) @using frame-fields, frame, set, wf
+//@ loop 1 invariant[flags] forallT(T, string, has(t, T) ==> t[T].IsImplementsNode == (old(has(t, T) && t[T].IsImplementsNode) || (seen(T) && T != k && implNode(schema, T)) || (T == k && iin))) && (iin ==> has(t, k)) @using flags, flag, wf
+//@ loop 1 invariant[types] forallT(T, string, old(has(t, T)) ==> has(t, T))
+//@ end
+
+//@ define wfInput(in *MergeInput) bool = in != nil && in.Schema != nil && forallT(k, string, has(in.Schema.Types, k) ==> in.Schema.Types[k] != nil)
+
+//@ func (ExtendMergerFunc).Merge
+//@ props C04
+//@ returns res, err
+//@ requires forall(k, 0, len(inputs), wfInput(inputs[k]))
+//@ ensures[res] err == nil ==> res != nil && wfTM(res.TypeURLMap)
+//@ ensures[routes] err == nil ==> forall(j, 0, len(inputs), forallT(T, string, forall(i, 0, len(inputs[j].Schema.Types[T].Fields), declaresAt(inputs[j].Schema.Types, T, i) ==> routed(res.TypeURLMap, T, inputs[j].Schema.Types[T].Fields[i].Name))))
+//@ ensures[owners] err == nil ==> forallT(T, string, forallT(n, string, routed(res.TypeURLMap, T, n) ==> exists(j, 0, len(inputs), route(res.TypeURLMap, T, n) == inputs[j].URL))) @using owners, tm
+//@ loop 0 invariant[tm] tm != nil && fresh(tm) && wfTM(tm) && len(inputs) >= 1 && len(schemas) == it + 1 && (base(schemas) == 0 || fresh(schemas))
+//@ loop 0 invariant[routes] forall(j, 0, it + 1, forallT(T, string, forall(i, 0, len(inputs[j].Schema.Types[T].Fields), declaresAt(inputs[j].Schema.Types, T, i) ==> routed(tm, T, inputs[j].Schema.Types[T].Fields[i].Name)))) @using routes, frame-fields, tm
+//@ loop 0 invariant[owners] forallT(T, string, forallT(n, string, routed(tm, T, n) ==> exists(j, 0, it + 1, route(tm, T, n) == inputs[j].URL))) @using owners, frame-fields, tm
+//@ end
+
+//@ func mergeTypes
+//@ props C03 C05
+//@ returns result, err
+//@ ensures[values] err == nil ==> result != nil && forallT(k, string, has(result, k) ==> result[k] != nil)
+//@ modifies-assumed fresh
+//@ end
+
+//@ func mergeImplements
+//@ props C03
+//@ modifies-assumed fresh
+//@ end
+
+//@ func mergePossibleTypes
+//@ props C03
+//@ modifies-assumed fresh
+//@ end
+
+//@ func mergeDirectives
+//@ props C03
+//@ modifies-assumed fresh
+//@ end
+
+//@ func formatSchema
+//@ props C03
+//@ modifies-assumed fresh
 //@ end
